@@ -282,6 +282,35 @@ pub fn run(ctx: &Ctx) -> i32 {
         rep.extra.insert("special_significand_sweep".into(), json!({"significands": ws.len(), "q_range": [qlo, qhi], "points": m, "complete": true}));
         sweep_distinct += m;
     }
+    // 1f. the carry boundary of the second multiplication (gen::lemire_carry_table: per exponent and bit length the
+    // significands of 15/16/17/19 digits whose 192-bit product is closest to wrapping), every entry, both formats,
+    // exact and (19 digits) truncated
+    {
+        if let Err(e) = gen::validate_carry_table() {
+            eprintln!("HARNESS-ERROR property=C11 {e}");
+            return 2;
+        }
+        let tab = gen::lemire_carry_table();
+        let n = tab.len() as u64 * 4;
+        let r = run_sweep(n, ctx.threads, |i, stats| {
+            let e = tab[(i / 4) as usize];
+            let fmt = if i % 2 == 0 { Fmt::F64 } else { Fmt::F32 };
+            let t = (i % 4) >= 2;
+            if t && e.digits != 19 {
+                return Ok(());
+            }
+            check_one(fmt, e.w, e.q, t, stats)?;
+            if i % 10_007 == 0 {
+                stats.sample("lemire carry boundary", || json!({"w": e.w, "q": e.q, "digits": e.digits, "carried": e.carried, "truncated": t, "format": fmt.name()}));
+            }
+            Ok(())
+        });
+        let m = r.stats.evaluations;
+        rep.absorb(r);
+        rep.stats.class("lemire second-product carry boundary (enumerated)");
+        rep.extra.insert("lemire_carry_boundary".into(), json!({"entries": tab.len(), "points": m, "complete": true}));
+        sweep_distinct += m;
+    }
     // 2. generated cases
     let cases = ctx.cases(1_500_000, 100_000_000);
     let r = run_recipes(ctx.seed, cases, ctx.threads, 11, |r, stats| {
